@@ -393,6 +393,10 @@ const GOOD: &[&str] = &[
     "refs", "heads", "tags", "rad", "root", "sigrefs", "id", "main", "master", "cobs", "xyz.radicle.patch", "a", "z", "A", "0",
     "v1.0", "lock", "a.lock.b", "x.locked", "lockx", "a.b", "a-b", "a_b", "-", "x@", "@x", "a@b", "{", "}", "a{@}b", "é", "日本",
     "\u{10348}", "feature", "x.y.z", "HEAD", "@@", "a@", "lo.ck", "a}{b", "%", "!", "\"", "#", "(", "|", "\u{80}", "\u{7ff}",
+    // valid for git and RefString, but Unicode White_Space / separators / format characters: a parser that
+    // splits or trims on Unicode whitespace breaks the round trip exactly on these
+    "a\u{3000}b", "x\u{2003}", "\u{a0}y", "n\u{85}l", "o\u{1680}g", "t\u{2009}n", "l\u{2028}s", "p\u{2029}s", "n\u{202f}b", "m\u{205f}m",
+    "z\u{200b}w", "b\u{feff}m", "r\u{200f}l", "s\u{ad}h", "c\u{301}", "\u{fffd}", "\u{e000}",
 ];
 const BAD: &[&str] = &[
     "x.lock", ".lock", ".hidden", "end.", "a..b", "..", ".", "a@{b", "@{", "{@", "{a@", "a b", " ", "a\tb", "a~b", "a^", "a:b", "a?", "a*",
